@@ -24,4 +24,9 @@ CHECKS = {
   "note": "Trusted: vlib/netmodel.py (documented semantics), the driver's re-run of LocalLinearization on the active observations. Slope observations with instrument heights are compared with the mark-to-mark derivative (gama reduces them to the marks). Singular sights excluded by construction.",
   "technique": "property-based testing (Hypothesis) against an analytic reference model of the observation functions",
  },
+ "C06": {
+  "text": "Generated-input search over determined networks built by recipes with error-free observations: the real gama-local binary (generated algorithm, axes/angle conventions, gon/degree input, grid offsets, exact / perturbed / omitted approximate coordinates, instrument heights) must return the generating coordinates with zero residuals and lose no point or observation; augmentation with further consistent observations is a second metamorphic step.",
+  "note": "Trusted: vlib/netmodel.py truth model (validated against gama by C05), numpy rank test for 'determined', my XML reader. Omission only for points the documented approximate-coordinate strategy resolves. Networks of 3-8 points.",
+  "technique": "property-based testing (Hypothesis) of the real binary against a constructive truth model; metamorphic augmentation",
+ },
 }
